@@ -25,7 +25,7 @@ T = {
  "C18": ("exploration", "model-based operation sequences vs reference FIFO map, compared after every operation", "Small key universe / capacities so evictions and re-insertions are dense; invariant checked at every step.", "3 C18", "hook handle over the private table"),
  "C19": ("exploration", "structured document generation (nine shapes, optional-field subsets, escapes, generated games) + decode-and-compare against the generated document", "Generated documents; every transmitted key/value must be found in the decoded structure.", "3 C19", "bounded by offline knowledge of the Lichess schema (see DESIGN C19)"),
 }
-hook_commits = ["e20c046", "2bc0c0f"]
+hook_commits = ["e20c046", "2bc0c0f", "f469396"]
 m = {
  "version": 1,
  "setup_cmd": "bin/setup",
